@@ -14,19 +14,19 @@ def sumCost (es : List Entry) : Int := (es.map cost).sum
   simp [sumCost]
 @[simp] theorem sumCost_append (a b : List Entry) : sumCost (a ++ b) = sumCost a + sumCost b := by
   simp [sumCost]
-theorem cost_nonneg (e : Entry) : 0 ≤ cost e := by unfold cost; omega
-theorem sumCost_nonneg (es : List Entry) : 0 ≤ sumCost es := by
+theorem c18h_cost_nonneg (e : Entry) : 0 ≤ cost e := by unfold cost; omega
+theorem c18h_sumCost_nonneg (es : List Entry) : 0 ≤ sumCost es := by
   induction es with
   | nil => simp
-  | cons e es ih => have := cost_nonneg e; simp; omega
-theorem sumCost_perm {a b : List Entry} (h : a.Perm b) : sumCost a = sumCost b := by
+  | cons e es ih => have := c18h_cost_nonneg e; simp; omega
+theorem c18h_sumCost_perm {a b : List Entry} (h : a.Perm b) : sumCost a = sumCost b := by
   induction h with
   | nil => rfl
   | cons x _ ih => simp [ih]
   | swap x y l => simp; omega
   | trans _ _ ih1 ih2 => omega
 
-theorem sumCost_filter (p : Entry → Bool) (es : List Entry) :
+theorem c18h_sumCost_filter (p : Entry → Bool) (es : List Entry) :
     sumCost es = sumCost (es.filter p) + sumCost (es.filter (fun e => !p e)) := by
   induction es with
   | nil => simp
@@ -34,7 +34,7 @@ theorem sumCost_filter (p : Entry → Bool) (es : List Entry) :
     cases hp : p e <;> simp [hp] <;> omega
 
 /-! sortByLast -/
-theorem insertByLast_perm (e : Entry) (k : Int) (r : List (Entry × Int)) :
+theorem c18h_insertByLast_perm (e : Entry) (k : Int) (r : List (Entry × Int)) :
     (insertByLast e k r).Perm ((e, k) :: r) := by
   induction r with
   | nil => simp [insertByLast]
@@ -45,7 +45,7 @@ theorem insertByLast_perm (e : Entry) (k : Int) (r : List (Entry × Int)) :
     · exact List.Perm.refl _
     · exact (List.Perm.cons _ ih).trans (List.Perm.swap _ _ _)
 
-theorem insertByLast_sorted (e : Entry) (k : Int) (r : List (Entry × Int))
+theorem c18h_insertByLast_sorted (e : Entry) (k : Int) (r : List (Entry × Int))
     (h : r.Pairwise (fun a b => a.2 ≤ b.2)) :
     (insertByLast e k r).Pairwise (fun a b => a.2 ≤ b.2) := by
   induction r with
@@ -66,12 +66,12 @@ theorem insertByLast_sorted (e : Entry) (k : Int) (r : List (Entry × Int))
       rw [List.pairwise_cons]
       refine ⟨?_, ih h.2⟩
       intro b hb
-      have hb' := (insertByLast_perm e k r).mem_iff.1 hb
+      have hb' := (c18h_insertByLast_perm e k r).mem_iff.1 hb
       rcases List.mem_cons.1 hb' with rfl | hb'
       · simp; omega
       · exact h.1 b hb'
 
-theorem sortByLast_spec_aux (es : List Entry) (order : List (Entry × Int)) (h : sortByLast es = some order) :
+theorem c18h_sortByLast_spec_aux (es : List Entry) (order : List (Entry × Int)) (h : sortByLast es = some order) :
     (order.map (·.1)).Perm es ∧ order.Pairwise (fun a b => a.2 ≤ b.2) ∧
     ∀ p ∈ order, lastUp p.1 = some p.2 := by
   induction es generalizing order with
@@ -82,16 +82,16 @@ theorem sortByLast_spec_aux (es : List Entry) (order : List (Entry × Int)) (h :
     · rename_i k r hk hr
       obtain ⟨h1, h2, h3⟩ := ih r hr
       simp at h; subst h
-      refine ⟨?_, insertByLast_sorted e k r h2, ?_⟩
-      · exact ((insertByLast_perm e k r).map _).trans (by simpa using h1)
+      refine ⟨?_, c18h_insertByLast_sorted e k r h2, ?_⟩
+      · exact ((c18h_insertByLast_perm e k r).map _).trans (by simpa using h1)
       · intro p hp
-        have hp' := (insertByLast_perm e k r).mem_iff.1 hp
+        have hp' := (c18h_insertByLast_perm e k r).mem_iff.1 hp
         rcases List.mem_cons.1 hp' with rfl | hp'
         · exact hk
         · exact h3 p hp'
     · simp at h
 
-theorem sortByLast_some (es : List Entry) (h : ∀ e ∈ es, e.ups ≠ []) :
+theorem c18h_sortByLast_some (es : List Entry) (h : ∀ e ∈ es, e.ups ≠ []) :
     ∃ order, sortByLast es = some order := by
   induction es with
   | nil => exact ⟨[], rfl⟩
@@ -103,10 +103,10 @@ theorem sortByLast_some (es : List Entry) (h : ∀ e ∈ es, e.ups ≠ []) :
     | some k => exact ⟨insertByLast e k r, by simp [sortByLast, hk, hr]⟩
 
 /-! evict -/
-theorem evict_nil (need : Int) (maxB : Nat) (size : Int) :
+theorem c18h_evict_nil (need : Int) (maxB : Nat) (size : Int) :
     evict need maxB [] size = if need + size > maxB then none else some ([], size) := by
   rw [evict]
-theorem evict_cons (need : Int) (maxB : Nat) (e : Entry) (k : Int) (r : List (Entry × Int)) (size : Int) :
+theorem c18h_evict_cons (need : Int) (maxB : Nat) (e : Entry) (k : Int) (r : List (Entry × Int)) (size : Int) :
     evict need maxB ((e, k) :: r) size =
       if need + size > maxB then
         match evict need maxB r (size - cost e) with
@@ -115,7 +115,7 @@ theorem evict_cons (need : Int) (maxB : Nat) (e : Entry) (k : Int) (r : List (En
       else some ([], size) := by
   rw [evict]; rfl
 
-theorem evict_minimal_aux (need : Int) (maxB : Nat) (order : List (Entry × Int)) (size : Int)
+theorem c18h_evict_minimal_aux (need : Int) (maxB : Nat) (order : List (Entry × Int)) (size : Int)
     (ev : List Bytes) (sz : Int) (h : evict need maxB order size = some (ev, sz)) :
     ev = (order.take ev.length).map (·.1.line) ∧
     sz = size - sumCost ((order.take ev.length).map (·.1)) ∧
@@ -123,13 +123,13 @@ theorem evict_minimal_aux (need : Int) (maxB : Nat) (order : List (Entry × Int)
     ∀ j, j < ev.length → need + (size - sumCost ((order.take j).map (·.1))) > maxB := by
   induction order generalizing size ev sz with
   | nil =>
-    rw [evict_nil] at h
+    rw [c18h_evict_nil] at h
     split at h
     · simp at h
     · simp at h; obtain ⟨rfl, rfl⟩ := h; simp; omega
   | cons p r ih =>
     obtain ⟨e, k⟩ := p
-    rw [evict_cons] at h
+    rw [c18h_evict_cons] at h
     split at h
     · rename_i hgt
       split at h
@@ -148,15 +148,15 @@ theorem evict_minimal_aux (need : Int) (maxB : Nat) (order : List (Entry × Int)
             simp only [List.take_succ_cons, List.map_cons, sumCost_cons]; omega
     · simp at h; obtain ⟨rfl, rfl⟩ := h; simp; omega
 
-theorem evict_some (need : Int) (maxB : Nat) (order : List (Entry × Int)) (size : Int)
+theorem c18h_evict_some (need : Int) (maxB : Nat) (order : List (Entry × Int)) (size : Int)
     (h : need + (size - sumCost (order.map (·.1))) ≤ maxB) :
     ∃ r, evict need maxB order size = some r := by
   induction order generalizing size with
-  | nil => rw [evict_nil]; simp at h; split; · omega
+  | nil => rw [c18h_evict_nil]; simp at h; split; · omega
            · exact ⟨_, rfl⟩
   | cons p r ih =>
     obtain ⟨e, k⟩ := p
-    rw [evict_cons]
+    rw [c18h_evict_cons]
     split
     · obtain ⟨⟨ev, sz⟩, hr⟩ := ih (size - cost e) (by simp at h; omega)
       rw [hr]; exact ⟨_, rfl⟩
@@ -171,62 +171,62 @@ structure Inv (l : Log) : Prop where
   cut     : ∀ e ∈ l.entries, e.line.length ≤ l.maxLine -- lines are cut to the limit
 
 /-! maps that keep the line -/
-theorem map_line_of_keep (g : Entry → Entry) (hg : ∀ e, (g e).line = e.line) (es : List Entry) :
+theorem c18h_map_line_of_keep (g : Entry → Entry) (hg : ∀ e, (g e).line = e.line) (es : List Entry) :
     (es.map g).map (·.line) = es.map (·.line) := by
   induction es with
   | nil => rfl
   | cons e es ih => simp only [List.map_cons, ih, hg]
 
-theorem sumCost_map_keep (g : Entry → Entry) (hg : ∀ e, (g e).line = e.line) (es : List Entry) :
+theorem c18h_sumCost_map_keep (g : Entry → Entry) (hg : ∀ e, (g e).line = e.line) (es : List Entry) :
     sumCost (es.map g) = sumCost es := by
   induction es with
   | nil => rfl
   | cons e es ih => simp only [List.map_cons, sumCost_cons, ih, cost, hg]
 
-theorem sumCost_sublist {a b : List Entry} (h : a.Sublist b) : sumCost a ≤ sumCost b := by
+theorem c18h_sumCost_sublist {a b : List Entry} (h : a.Sublist b) : sumCost a ≤ sumCost b := by
   induction h with
   | slnil => simp
-  | cons x _ ih => have := cost_nonneg x; simp; omega
+  | cons x _ ih => have := c18h_cost_nonneg x; simp; omega
   | cons_cons x _ ih => simp; omega
 
 /-! expire -/
-def cutUps (l : Log) (now : Int) (e : Entry) : Entry :=
+def c18h_cutUps (l : Log) (now : Int) (e : Entry) : Entry :=
   { e with ups := e.ups.dropWhile (fun t => t < now - l.expiry) }
 
-theorem cutUps_line (l : Log) (now : Int) (e : Entry) : (cutUps l now e).line = e.line := rfl
+theorem c18h_cutUps_line (l : Log) (now : Int) (e : Entry) : (c18h_cutUps l now e).line = e.line := rfl
 
-theorem expire_entries (l : Log) (now : Int) :
-    (expire l now).entries = (l.entries.map (cutUps l now)).filter (fun e => !e.ups.isEmpty) := rfl
-theorem expire_size (l : Log) (now : Int) :
-    (expire l now).size = l.size - sumCost ((l.entries.map (cutUps l now)).filter (fun e => e.ups.isEmpty)) := rfl
+theorem c18h_expire_entries (l : Log) (now : Int) :
+    (expire l now).entries = (l.entries.map (c18h_cutUps l now)).filter (fun e => !e.ups.isEmpty) := rfl
+theorem c18h_expire_size (l : Log) (now : Int) :
+    (expire l now).size = l.size - sumCost ((l.entries.map (c18h_cutUps l now)).filter (fun e => e.ups.isEmpty)) := rfl
 @[simp] theorem expire_maxB (l : Log) (now : Int) : (expire l now).maxB = l.maxB := rfl
 @[simp] theorem expire_maxLine (l : Log) (now : Int) : (expire l now).maxLine = l.maxLine := rfl
 @[simp] theorem expire_expiry (l : Log) (now : Int) : (expire l now).expiry = l.expiry := rfl
 
-theorem expire_nonempty (l : Log) (now : Int) : ∀ e ∈ (expire l now).entries, e.ups ≠ [] := by
+theorem c18h_expire_nonempty (l : Log) (now : Int) : ∀ e ∈ (expire l now).entries, e.ups ≠ [] := by
   intro e he
-  rw [expire_entries, List.mem_filter] at he
+  rw [c18h_expire_entries, List.mem_filter] at he
   intro h; simp [h] at he
 
-theorem inv_expire (l : Log) (now : Int) (h : Inv l) : Inv (expire l now) := by
-  have hsum := sumCost_map_keep (cutUps l now) (cutUps_line l now) l.entries
-  have hsplit := sumCost_filter (fun e => e.ups.isEmpty) (l.entries.map (cutUps l now))
-  have hsub : (expire l now).entries.Sublist (l.entries.map (cutUps l now)) := by
-    rw [expire_entries]; exact List.filter_sublist
-  refine ⟨?_, ?_, expire_nonempty l now, ?_, ?_⟩
-  · rw [expire_size, expire_entries, h.exact]; omega
-  · have := sumCost_sublist hsub
+theorem c18h_inv_expire (l : Log) (now : Int) (h : Inv l) : Inv (expire l now) := by
+  have hsum := c18h_sumCost_map_keep (c18h_cutUps l now) (c18h_cutUps_line l now) l.entries
+  have hsplit := c18h_sumCost_filter (fun e => e.ups.isEmpty) (l.entries.map (c18h_cutUps l now))
+  have hsub : (expire l now).entries.Sublist (l.entries.map (c18h_cutUps l now)) := by
+    rw [c18h_expire_entries]; exact List.filter_sublist
+  refine ⟨?_, ?_, c18h_expire_nonempty l now, ?_, ?_⟩
+  · rw [c18h_expire_size, c18h_expire_entries, h.exact]; omega
+  · have := c18h_sumCost_sublist hsub
     have := h.bound
     rw [expire_maxB]; omega
   · have := hsub.map (·.line)
-    rw [map_line_of_keep _ (cutUps_line l now)] at this
+    rw [c18h_map_line_of_keep _ (c18h_cutUps_line l now)] at this
     exact List.Nodup.sublist this h.nodup
   · intro e he
     obtain ⟨e', he', rfl⟩ := List.mem_map.1 (hsub.subset he)
     exact h.cut e' he'
 
 /-! printf -/
-def printfCore (l : Log) (now : Int) (key : Bytes) : Option Log :=
+def c18h_printfCore (l : Log) (now : Int) (key : Bytes) : Option Log :=
   let need : Int := 2 * key.length
   if need > l.maxB then some l else
   if l.entries.any (fun e => e.line == key) then
@@ -242,41 +242,41 @@ def printfCore (l : Log) (now : Int) (key : Bytes) : Option Log :=
         some { l with entries := (l.entries.filter (fun e => !ev.contains e.line)) ++ [⟨key, [now]⟩],
                       size := sz + need }
 
-theorem printf_eq (l : Log) (now : Int) (raw : Bytes) :
+theorem c18h_printf_eq (l : Log) (now : Int) (raw : Bytes) :
     printf l now raw =
-      printfCore (expire l now) now (if raw.length > l.maxLine then raw.take l.maxLine else raw) := rfl
+      c18h_printfCore (expire l now) now (if raw.length > l.maxLine then raw.take l.maxLine else raw) := rfl
 
-theorem cutLine_le (l : Log) (raw : Bytes) :
+theorem c18h_cutLine_le (l : Log) (raw : Bytes) :
     (if raw.length > l.maxLine then raw.take l.maxLine else raw).length ≤ l.maxLine := by
   split
   · simp; omega
   · omega
 
-def bump (key : Bytes) (now : Int) (e : Entry) : Entry :=
+def c18h_bump (key : Bytes) (now : Int) (e : Entry) : Entry :=
   if e.line == key then { e with ups := e.ups ++ [now] } else e
 
-theorem bump_line (key : Bytes) (now : Int) (e : Entry) : (bump key now e).line = e.line := by
-  unfold bump; split <;> rfl
+theorem c18h_bump_line (key : Bytes) (now : Int) (e : Entry) : (c18h_bump key now e).line = e.line := by
+  unfold c18h_bump; split <;> rfl
 
-theorem inv_bump (l : Log) (h : Inv l) (key : Bytes) (now : Int) :
-    Inv { l with entries := l.entries.map (bump key now) } := by
+theorem c18h_inv_bump (l : Log) (h : Inv l) (key : Bytes) (now : Int) :
+    Inv { l with entries := l.entries.map (c18h_bump key now) } := by
   refine ⟨?_, ?_, ?_, ?_, ?_⟩
-  · show l.size = sumCost (l.entries.map (bump key now))
-    rw [sumCost_map_keep _ (bump_line key now)]; exact h.exact
-  · show sumCost (l.entries.map (bump key now)) ≤ l.maxB
-    rw [sumCost_map_keep _ (bump_line key now)]; exact h.bound
+  · show l.size = sumCost (l.entries.map (c18h_bump key now))
+    rw [c18h_sumCost_map_keep _ (c18h_bump_line key now)]; exact h.exact
+  · show sumCost (l.entries.map (c18h_bump key now)) ≤ l.maxB
+    rw [c18h_sumCost_map_keep _ (c18h_bump_line key now)]; exact h.bound
   · intro e he
     obtain ⟨e', he', rfl⟩ := List.mem_map.1 he
-    unfold bump; split
+    unfold c18h_bump; split
     · simp
     · exact h.nonempty e' he'
-  · show ((l.entries.map (bump key now)).map (·.line)).Nodup
-    rw [map_line_of_keep _ (bump_line key now)]; exact h.nodup
+  · show ((l.entries.map (c18h_bump key now)).map (·.line)).Nodup
+    rw [c18h_map_line_of_keep _ (c18h_bump_line key now)]; exact h.nodup
   · intro e he
     obtain ⟨e', he', rfl⟩ := List.mem_map.1 he
-    rw [bump_line]; exact h.cut e' he'
+    rw [c18h_bump_line]; exact h.cut e' he'
 
-theorem filter_evicted (es A B : List Entry) (hp : (A ++ B).Perm es)
+theorem c18h_filter_evicted (es A B : List Entry) (hp : (A ++ B).Perm es)
     (hnd : (es.map (·.line)).Nodup) :
     (es.filter (fun e => !(A.map (·.line)).contains e.line)).Perm B := by
   have hnd' : ((A ++ B).map (·.line)).Nodup := ((hp.map (·.line)).nodup_iff).2 hnd
@@ -297,23 +297,23 @@ theorem filter_evicted (es A B : List Entry) (hp : (A ++ B).Perm es)
   rw [hA, hB] at h1
   simpa using h1
 
-theorem inv_insert (l : Log) (h : Inv l) (key : Bytes) (now : Int)
+theorem c18h_inv_insert (l : Log) (h : Inv l) (key : Bytes) (now : Int)
     (hkey : key.length ≤ l.maxLine) (hnew : ∀ e ∈ l.entries, e.line ≠ key)
     (A B : List Entry) (hp : (A ++ B).Perm l.entries) (sz : Int)
     (hsz : sz = l.size - sumCost A) (hfit : 2 * (key.length : Int) + sz ≤ l.maxB) :
     Inv { l with entries := (l.entries.filter (fun e => !(A.map (·.line)).contains e.line)) ++ [⟨key, [now]⟩],
                  size := sz + 2 * (key.length : Int) } := by
-  have hf := filter_evicted l.entries A B hp h.nodup
+  have hf := c18h_filter_evicted l.entries A B hp h.nodup
   have hsum : sumCost l.entries = sumCost A + sumCost B := by
-    rw [← sumCost_perm hp, sumCost_append]
+    rw [← c18h_sumCost_perm hp, sumCost_append]
   have hsub : (l.entries.filter (fun e => !(A.map (·.line)).contains e.line)).Sublist l.entries :=
     List.filter_sublist
   have hex := h.exact
   refine ⟨?_, ?_, ?_, ?_, ?_⟩
   · show sz + 2 * (key.length : Int) = sumCost (_ ++ [(⟨key, [now]⟩ : Entry)])
-    rw [sumCost_append, sumCost_perm hf]; simp [cost]; omega
+    rw [sumCost_append, c18h_sumCost_perm hf]; simp [cost]; omega
   · show sumCost (_ ++ [(⟨key, [now]⟩ : Entry)]) ≤ l.maxB
-    rw [sumCost_append, sumCost_perm hf]; simp [cost]; omega
+    rw [sumCost_append, c18h_sumCost_perm hf]; simp [cost]; omega
   · intro e he
     rcases List.mem_append.1 he with he | he
     · exact h.nonempty e (hsub.subset he)
@@ -330,10 +330,10 @@ theorem inv_insert (l : Log) (h : Inv l) (key : Bytes) (now : Int)
     · exact h.cut e (hsub.subset he)
     · simp at he; subst he; exact hkey
 
-theorem printfCore_spec (l : Log) (h : Inv l) (now : Int) (key : Bytes) (hkey : key.length ≤ l.maxLine) :
-    ∃ l', printfCore l now key = some l' ∧ Inv l' ∧
+theorem c18h_printfCore_spec (l : Log) (h : Inv l) (now : Int) (key : Bytes) (hkey : key.length ≤ l.maxLine) :
+    ∃ l', c18h_printfCore l now key = some l' ∧ Inv l' ∧
       (2 * (key.length : Int) ≤ l.maxB → ∃ e ∈ l'.entries, e.line = key ∧ e.ups.getLast? = some now) := by
-  unfold printfCore
+  unfold c18h_printfCore
   simp only []
   split
   · rename_i hbig
@@ -341,11 +341,11 @@ theorem printfCore_spec (l : Log) (h : Inv l) (now : Int) (key : Bytes) (hkey : 
   · rename_i hbig
     split
     · rename_i hany
-      refine ⟨_, rfl, inv_bump l h key now, fun _ => ?_⟩
+      refine ⟨_, rfl, c18h_inv_bump l h key now, fun _ => ?_⟩
       obtain ⟨e, he, hek⟩ := List.any_eq_true.1 hany
-      refine ⟨bump key now e, List.mem_map_of_mem he, ?_, ?_⟩
-      · rw [bump_line]; simpa using hek
-      · unfold bump; rw [if_pos hek]; simp
+      refine ⟨c18h_bump key now e, List.mem_map_of_mem he, ?_, ?_⟩
+      · rw [c18h_bump_line]; simpa using hek
+      · unfold c18h_bump; rw [if_pos hek]; simp
     · rename_i hany
       have hnew : ∀ e ∈ l.entries, e.line ≠ key := by
         intro e he hk
@@ -355,47 +355,47 @@ theorem printfCore_spec (l : Log) (h : Inv l) (now : Int) (key : Bytes) (hkey : 
         fun es => ⟨⟨key, [now]⟩, by simp, rfl, rfl⟩
       by_cases hover : 2 * (key.length : Int) + l.size > l.maxB
       · rw [if_pos hover]
-        obtain ⟨order, hord⟩ := sortByLast_some l.entries h.nonempty
-        obtain ⟨hperm, -, -⟩ := sortByLast_spec_aux _ _ hord
+        obtain ⟨order, hord⟩ := c18h_sortByLast_some l.entries h.nonempty
+        obtain ⟨hperm, -, -⟩ := c18h_sortByLast_spec_aux _ _ hord
         have hex := h.exact
-        obtain ⟨⟨ev, sz⟩, hev⟩ := evict_some (2 * (key.length : Int)) l.maxB order l.size (by
-          rw [sumCost_perm hperm]; omega)
-        obtain ⟨h1, h2, h3, -⟩ := evict_minimal_aux _ _ _ _ _ _ hev
+        obtain ⟨⟨ev, sz⟩, hev⟩ := c18h_evict_some (2 * (key.length : Int)) l.maxB order l.size (by
+          rw [c18h_sumCost_perm hperm]; omega)
+        obtain ⟨h1, h2, h3, -⟩ := c18h_evict_minimal_aux _ _ _ _ _ _ hev
         simp only [hord, hev]
         refine ⟨_, rfl, ?_, fun _ => hlast _⟩
         obtain ⟨n, hn⟩ : ∃ n, n = ev.length := ⟨_, rfl⟩
         rw [← hn] at h1 h2
         have h1' : ev = ((order.take n).map (·.1)).map (·.line) := by rw [List.map_map]; exact h1
         rw [h1']
-        refine inv_insert l h key now hkey hnew _ ((order.drop n).map (·.1)) ?_ sz h2 h3
+        refine c18h_inv_insert l h key now hkey hnew _ ((order.drop n).map (·.1)) ?_ sz h2 h3
         rw [← List.map_append, List.take_append_drop]; exact hperm
       · rw [if_neg hover]
         simp only []
-        rw [evict_nil, if_neg hover]
+        rw [c18h_evict_nil, if_neg hover]
         simp only []
         refine ⟨_, rfl, ?_, fun _ => hlast _⟩
-        exact inv_insert l h key now hkey hnew [] l.entries (by simp) l.size (by simp) (by omega)
+        exact c18h_inv_insert l h key now hkey hnew [] l.entries (by simp) l.size (by simp) (by omega)
 
-theorem step_spec (l : Log) (op : Op) (h : Inv l) : ∃ l', step l op = some l' ∧ Inv l' := by
+theorem c18h_step_spec (l : Log) (op : Op) (h : Inv l) : ∃ l', step l op = some l' ∧ Inv l' := by
   cases op with
   | printf now raw =>
-    obtain ⟨l', h1, h2, -⟩ := printfCore_spec (expire l now) (inv_expire l now h) now _ (cutLine_le l raw)
+    obtain ⟨l', h1, h2, -⟩ := c18h_printfCore_spec (expire l now) (c18h_inv_expire l now h) now _ (c18h_cutLine_le l raw)
     exact ⟨l', h1, h2⟩
-  | expire now => exact ⟨_, rfl, inv_expire l now h⟩
+  | expire now => exact ⟨_, rfl, c18h_inv_expire l now h⟩
   | dump now =>
-    obtain ⟨order, hord⟩ := sortByLast_some (expire l now).entries (expire_nonempty l now)
-    refine ⟨expire l now, ?_, inv_expire l now h⟩
+    obtain ⟨order, hord⟩ := c18h_sortByLast_some (expire l now).entries (c18h_expire_nonempty l now)
+    refine ⟨expire l now, ?_, c18h_inv_expire l now h⟩
     simp [step, dump, hord]
 
-theorem run_spec (l : Log) (ops : List Op) (h : Inv l) : ∃ l', run l ops = some l' ∧ Inv l' := by
+theorem c18h_run_spec (l : Log) (ops : List Op) (h : Inv l) : ∃ l', run l ops = some l' ∧ Inv l' := by
   induction ops generalizing l with
   | nil => exact ⟨l, rfl, h⟩
   | cons op ops ih =>
-    obtain ⟨l1, h1, hi⟩ := step_spec l op h
+    obtain ⟨l1, h1, hi⟩ := c18h_step_spec l op h
     obtain ⟨l2, h2, hi2⟩ := ih l1 hi
     exact ⟨l2, by simp [run, h1, h2], hi2⟩
 
-theorem dropWhile_sorted (c : Int) (ups : List Int) (hs : ups.Pairwise (· ≤ ·)) :
+theorem c18h_dropWhile_sorted (c : Int) (ups : List Int) (hs : ups.Pairwise (· ≤ ·)) :
     ups.dropWhile (fun t => t < c) = ups.filter (fun t => c ≤ t) := by
   induction ups with
   | nil => rfl
@@ -415,13 +415,13 @@ theorem inv_init (expiry : Int) (maxB maxLine : Nat) : Inv (init expiry maxB max
 /-- No call panics, and every call preserves the invariant (in particular the
 size bound and exact accounting, also right after an expiry). -/
 theorem c18_step (l : Log) (op : Op) (h : Inv l) : ∃ l', step l op = some l' ∧ Inv l' := by
-  exact step_spec l op h
+  exact c18h_step_spec l op h
 
 /-- For every sequence of operations from a fresh logger: no panic, bound and
 exact accounting hold at the end (hence, by prefix closure, at every point). -/
 theorem c18_run (expiry : Int) (maxB maxLine : Nat) (ops : List Op) :
     ∃ l', run (init expiry maxB maxLine) ops = some l' ∧ Inv l' := by
-  exact run_spec _ ops (inv_init expiry maxB maxLine)
+  exact c18h_run_spec _ ops (inv_init expiry maxB maxLine)
 
 /-- The line as stored: cut to the per-line limit. -/
 def cutLine (l : Log) (raw : Bytes) : Bytes := if raw.length > l.maxLine then raw.take l.maxLine else raw
@@ -431,22 +431,22 @@ theorem c18_retained (l : Log) (now : Int) (raw : Bytes) (h : Inv l)
     (hfit : 2 * ((cutLine l raw).length : Int) ≤ l.maxB) :
     ∃ l', printf l now raw = some l' ∧
       ∃ e ∈ l'.entries, e.line = cutLine l raw ∧ e.ups.getLast? = some now := by
-  obtain ⟨l', h1, -, h3⟩ := printfCore_spec (expire l now) (inv_expire l now h) now _ (cutLine_le l raw)
+  obtain ⟨l', h1, -, h3⟩ := c18h_printfCore_spec (expire l now) (c18h_inv_expire l now h) now _ (c18h_cutLine_le l raw)
   exact ⟨l', h1, h3 hfit⟩
 
 /-- A line that can never fit is dropped and changes nothing but expiry. -/
 theorem c18_unloggable (l : Log) (now : Int) (raw : Bytes)
     (hfit : ¬ 2 * ((cutLine l raw).length : Int) ≤ l.maxB) :
     printf l now raw = some (expire l now) := by
-  rw [printf_eq]
-  unfold printfCore
+  rw [c18h_printf_eq]
+  unfold c18h_printfCore
   exact if_pos (Int.not_le.1 hfit)
 
 /-- `sortByLast` yields a permutation of the entries, ascending in last update. -/
-theorem sortByLast_spec (es : List Entry) (order : List (Entry × Int)) (h : sortByLast es = some order) :
+theorem c18h_sortByLast_spec (es : List Entry) (order : List (Entry × Int)) (h : sortByLast es = some order) :
     (order.map (·.1)).Perm es ∧ order.Pairwise (fun a b => a.2 ≤ b.2) ∧
     ∀ p ∈ order, lastUp p.1 = some p.2 := by
-  exact sortByLast_spec_aux es order h
+  exact c18h_sortByLast_spec_aux es order h
 
 /-- Eviction removes a prefix of the least-recently-updated order, and only as
 far as needed: after it the line fits, and with one eviction fewer it would not. -/
@@ -456,7 +456,7 @@ theorem c18_evict_minimal (need : Int) (maxB : Nat) (order : List (Entry × Int)
     sz = size - sumCost ((order.take ev.length).map (·.1)) ∧
     need + sz ≤ maxB ∧
     ∀ j, j < ev.length → need + (size - sumCost ((order.take j).map (·.1))) > maxB := by
-  exact evict_minimal_aux need maxB order size ev sz h
+  exact c18h_evict_minimal_aux need maxB order size ev sz h
 
 /-- Expiry keeps exactly the entries that still have an update at or after the
 cut, each with exactly those updates (for entries whose updates are in order). -/
@@ -464,11 +464,11 @@ theorem c18_expire_keeps (l : Log) (now : Int) (e : Entry) (he : e ∈ l.entries
     (hs : e.ups.Pairwise (· ≤ ·)) :
     (∃ t ∈ e.ups, now - l.expiry ≤ t) ↔
       (⟨e.line, e.ups.filter (fun t => now - l.expiry ≤ t)⟩ : Entry) ∈ (expire l now).entries := by
-  rw [expire_entries, List.mem_filter, List.mem_map]
+  rw [c18h_expire_entries, List.mem_filter, List.mem_map]
   constructor
   · rintro ⟨t, ht, hc⟩
     refine ⟨⟨e, he, ?_⟩, ?_⟩
-    · simp only [cutUps, dropWhile_sorted _ _ hs]
+    · simp only [c18h_cutUps, c18h_dropWhile_sorted _ _ hs]
     · have : t ∈ e.ups.filter (fun t => now - l.expiry ≤ t) := List.mem_filter.2 ⟨ht, by simpa using hc⟩
       cases hf : e.ups.filter (fun t => now - l.expiry ≤ t) with
       | nil => rw [hf] at this; simp at this
@@ -485,7 +485,7 @@ theorem c18_expire_keeps (l : Log) (now : Int) (e : Entry) (he : e ∈ l.entries
 theorem c18_dump_sorted (l : Log) (now : Int) (h : Inv l) :
     ∃ l' order, dump l now = some (l', order.map (·.1.line)) ∧ l' = expire l now ∧
       sortByLast l'.entries = some order := by
-  obtain ⟨order, hord⟩ := sortByLast_some (expire l now).entries (expire_nonempty l now)
+  obtain ⟨order, hord⟩ := c18h_sortByLast_some (expire l now).entries (c18h_expire_nonempty l now)
   exact ⟨expire l now, order, by simp [dump, hord], rfl, hord⟩
 
 /-- Non-vacuity: the configuration of the repaired defect (20 bytes, 100-byte
